@@ -76,7 +76,9 @@ fn gen_term(rng: &mut StdRng, depth: usize) -> String {
     if depth == 0 || rng.gen_bool(0.2) {
         return match rng.gen_range(0..6) { 0 => "0".into(), 1 => "1".into(), 2 => "2".into(), 3 => "(var $1)".into(), 4 => "(var $2)".into(), _ => "(var $3)".into() };
     }
-    match rng.gen_range(0..6) {
+    match rng.gen_range(0..7) {
+        // redundancy bait: 0 * x for two different slots
+        6 => format!("(add (mul 0 (var ${})) (mul 0 (var ${})))", rng.gen_range(1..=3), rng.gen_range(1..=3)),
         0 | 1 => format!("(add {} {})", gen_term(rng, depth - 1), gen_term(rng, depth - 1)),
         2 | 3 => format!("(mul {} {})", gen_term(rng, depth - 1), gen_term(rng, depth - 1)),
         4 => format!("(sum ${} {})", rng.gen_range(1..=3), gen_term(rng, depth - 1)),
